@@ -190,6 +190,10 @@ def run(tier, seed, vh, only_paths=None, mode=None):
                     case = to_case("%s-%d-%s" % (scen, i, v), SCENARIOS[scen], sc["prog"], sc["sched"], v)
                     # every other feed case runs with the physical clock standing still, so that consecutive
                     # mutations carry consecutive CAS values (checkpoint + 1 is then a document's CAS)
+                    # the model's collection holds one document: let the feeds begin at the case's start marker
+                    # (one case in five keeps the whole collection in its backfill)
+                    if scen in ("join", "resume", "dumpstop") and i % 5 != 4:
+                        case["frombase"] = True
                     if scen in ("order", "join", "resume") and (i % 2 == 1 or sc.get("dropped")):
                         case["frozen"] = True
                     cases.append(case)
